@@ -135,6 +135,8 @@ def run(ctx):
     quick = ctx.tier == 'quick'
     probe_cases(ctx, 150 if quick else 2000, (6, 35) if quick else (10, 90))
     multi_extent_oracle(ctx)
+    from harness.props import accountlinksleaf
+    accountlinksleaf.correspondence(ctx)
     # views in all namespaces after write+reopen, link-heavy histories, with and without generations
     from harness import recipes
     extra = []
